@@ -27,7 +27,7 @@ InitState ==
                  [ status |-> "WAITING", ast |-> NoneT, data |-> 0,
                    planned |-> FALSE, remaining |-> {}, planAst |-> NoneT ]],
       tel |-> [use |-> 0, flag |-> FALSE],
-      sch |-> [queue |-> {}, prov |-> 0, status |-> "ONTIME", doff |-> 0],
+      sch |-> [queue |-> {}, prov |-> 0, pend |-> 0, status |-> "ONTIME", doff |-> 0],
       buf |-> [ hotFree |-> cfg.hotCap, coldFree |-> cfg.coldCap,
                 hotStored |-> <<>>, hotSched |-> {}, hotFin |-> {}, hotTr |-> "",
                 coldStored |-> <<>>, coldTr |-> "", dataLeft |-> 0,
